@@ -73,8 +73,15 @@ claim("C20", "proof",
       "Trusted: clang 14 + tbfscan, sympy normal form, the frozen role table of the routines' parameters (data[0..2] position, data[3] physical value, rhs[0..2] force, rhs[3] potential).",
       "algebraic normal form (sympy) of the per-pair update + loop-shape rule", "DESIGN.md §2 C20")
 
+claim("C11", "other",
+      "Two agreement clauses over both shipped ordering classes and the kernels that consume the codes: (1) every site that builds or splits a relative-position code (21 sites: inline encoders of the list builders, helper encoders/decoders, self-list encoder, the rotation kernel's and the uniform handler's closed-form table indices) is reduced to (base, offset, digit order) and all agree on (7,3)/(3,1) with dimension 0 most significant, decoders exist for each base and use the same triple (so decode inverts encode), the upper-half filter is floor(3^Dim/2) < code; "
+      "(2) parent/child/child-code/upper-bound shifts all use the class's Dim and no code outside the ordering classes and the 3-D kernels shifts or masks an index by a literal dimension (positive-control fixture). "
+      "Bijection, geometric containment of children and list = definition for every cell are value-level and NOT decided; in particular the Hilbert ordering's tree-height-driven automaton (parents do not contain their children above the leaf level) is outside these clauses and is recorded as an observation in DESIGN.md.",
+      "Trusted: clang 14 + tbfscan, sympy expansion of closed forms, the convention table {7:3, 3:1, dim0 first} read from the decoders.",
+      "codec extraction (base, offset, digit order) + shift-width agreement over the clang AST", "DESIGN.md §2 C11")
+
 _todo = "check not built yet in this round (see DESIGN.md §7 build order)"
-for p in ["C08","C10","C11","C14","C15"]:
+for p in ["C08","C10","C14","C15"]:
     NA[p] = _todo
 NA["C01"] = "exactly-once is a counting statement over all particle sets, heights, dimensions and groupings; no lint/effect/type argument bounds the list-builder arithmetic. Structural prerequisites are decided under C02/C03/C08/C11/C12."
 NA["C04"] = "bound on a floating-point truncation error over all positions/heights/orders: nothing about it is visible in the shape of the code (accumulate clause is under C08, code conventions under C11)."
